@@ -27,10 +27,11 @@ structure SoftP where
   req : Nat
   isMap : Bool
   mapHeld : Bool
+  hasOut : Bool                        -- the asyncio Task has completed (it has a result, an exception or was cancelled)
 deriving DecidableEq
 
 def _root_.Taskpool.PTask.soft (k : PTask) : SoftP :=
-  ⟨k.phase, k.released, k.nCC, k.nEC, k.wasCancelled, k.endCb, k.cancelCb, k.nSaw, k.req, k.isMap, k.mapHeld⟩
+  ⟨k.phase, k.released, k.nCC, k.nEC, k.wasCancelled, k.endCb, k.cancelCb, k.nSaw, k.req, k.isMap, k.mapHeld, k.outcome.isSome⟩
 
 /-- the life cycle of one task, as far as callbacks are concerned (`lost` = the pool's ghost bit, DESIGN §4.3) -/
 structure OKs (lost : Bool) (s : SoftP) : Prop where
@@ -52,6 +53,8 @@ structure OKs (lost : Bool) (s : SoftP) : Prop where
   s0 : (s.phase = .created ∨ s.phase = .inWorker) → s.nSaw = 0
   /-- a map task keeps its map slot at least as long as its pool slot -/
   mh : s.isMap = true → s.released = false → s.mapHeld = true
+  /-- an asyncio Task that has completed belongs to a pool task whose wrapper has returned -/
+  out : s.hasOut = true → s.phase = .finished
 
 def LifeOK (p : Pool) : Prop := ∀ (t : Nat) (tk : PTask), p.tasks[t]? = some tk → OKs p.lost tk.soft
 
@@ -742,18 +745,18 @@ theorem LifeOK.lostMono {p q : Pool} (hl : LifeOK p) (ht : q.tasks = p.tasks) (h
   rw [ht] at h
   have h1 := hl t tk h
   cases hq : q.lost with
-  | true => exact ⟨h1.e0, h1.e1, h1.c1, h1.c0, h1.cw, h1.cc, h1.ec, h1.ord, h1.cn, h1.en, (fun _ hl' => by cases hl'), h1.s1, h1.s0, h1.mh⟩
+  | true => exact ⟨h1.e0, h1.e1, h1.c1, h1.c0, h1.cw, h1.cc, h1.ec, h1.ord, h1.cn, h1.en, (fun _ hl' => by cases hl'), h1.s1, h1.s0, h1.mh, h1.out⟩
   | false =>
     cases hp : p.lost with
     | true => rw [hm hp] at hq; cases hq
     | false => rw [hp] at h1; exact h1
 
 theorem oks_new (lost : Bool) (ph : Phase) (ecb ccb : CbSpec) (m : Nat) (isMap : Bool) (hph : ph = .created) :
-    OKs lost ⟨ph, false, 0, 0, false, ecb, ccb, 0, m, isMap, isMap⟩ := by
+    OKs lost ⟨ph, false, 0, 0, false, ecb, ccb, 0, m, isMap, isMap, false⟩ := by
   subst hph
   exact ⟨fun _ => rfl, by simp, by simp, fun _ => ⟨rfl, rfl⟩, fun h => by simp at h, fun h => by simp at h,
     fun h => by simp at h, fun h => by simp at h, fun _ => rfl, fun _ => rfl, fun h => by simp at h, by simp,
-    fun _ => rfl, fun h _ => h⟩
+    fun _ => rfl, fun h _ => h, fun h => by simp at h⟩
 
 theorem Tame0.life {p q : Pool} (h : Tame0 p q) (hl : LifeOK p) : LifeOK q := by
   intro t tk' ht
